@@ -185,6 +185,42 @@ def run_proc(spec, res):
             if pp.delivered(second) != want or second.get('outcome') != 'exhausted':
                 res.violation('iteration-after-early-stop-fails', case,
                               {'second': second}, sig=sig)
+    run_proc_slow(spec, res)
+
+
+def run_proc_slow(spec, res):
+    """Worker processes that are in the middle of a slow user function when the
+    consumer stops (close / drop): once control is back, no record of user code
+    may carry a later time stamp (CLOCK_MONOTONIC is system wide), i.e. the
+    workers were waited for or killed, not left running."""
+    from .. import procpool as pp
+    be = spec['backend']
+    for entry in ('pft', 'parmap'):
+        for how, k in (('close', 1), ('drop', 2), ('close', 0))[:1 + spec['proc_cases']]:
+            sc = {'entry': entry, 'n': 10, 'b': 3, 'w': 2, 'backend': be,
+                  'delays': [0.3], 'stop': [how, k], 'again': False, 'settle': 1.2}
+            r = pp.run_case(sc)
+            case = {'scenario': sc}
+            sig = {'entry': entry, 'backend': be, 'harness': 'process-pool', 'stop': how}
+            if r.get('timeout'):
+                res.violation('hang-process-pool', case, None, sig=sig)
+                continue
+            if r.get('crash') or r.get('closed_at') is None:
+                res.inconclusive_because(f'process-pool case crashed: {str(r)[:300]}')
+                continue
+            res.count('process_pool_executions')
+            res.count('proc_slow_task_stop_checks')
+            res.case(('proc-slow', be, entry, how, k), True)
+            closed = r['closed_at']
+            late = [(x[0], x[1], round(x[2] - closed, 3)) for x in r['records']
+                    if x[2] > closed]
+            res.count('proc_tasks_in_flight_at_stop',
+                      len({x[1] for x in r['records'] if x[0] == 'start'})
+                      - len({x[1] for x in r['records'] if x[0] == 'end'}))
+            if late:
+                res.violation('user-code-ran-after-control-returned', case,
+                              {'records_after_control_returned (what, i, seconds late)':
+                               late[:6]}, sig=sig)
 
 
 def finalize(res, tier):
